@@ -150,6 +150,8 @@ type Obligation struct {
 	Pos     string   // source position (informational only, never part of the name)
 	Inputs  []string // SMT constants whose model values describe the input
 	Note    string
+	caseSel int      // which case a standalone script asserts (-1: none)
+	Cases   []string // optional case split: the obligation holds iff it holds under each case (cases are exhaustive by construction)
 }
 
 type Enc struct {
@@ -176,12 +178,13 @@ type Enc struct {
 	entryState *State
 	paramTerms map[string]TT
 	assumeNote []string
+	usedContracts map[string]bool
 }
 
 func NewEnc(w *World, fn *ssa.Function, c *Contract) *Enc {
 	return &Enc{w: w, top: fn, topCon: c, declared: map[string]bool{}, heapSort: map[string]string{}, typeIDs: map[string]int{},
 		typeOf: map[string]types.Type{}, structs: map[string]*types.Struct{}, counters: map[string]int{}, strConsts: map[string]string{},
-		ifaceImplFacts: map[string]bool{}, boxes: map[string]string{}, maxInline: 4, paramTerms: map[string]TT{}}
+		ifaceImplFacts: map[string]bool{}, boxes: map[string]string{}, maxInline: 4, paramTerms: map[string]TT{}, usedContracts: map[string]bool{}}
 }
 
 func (e *Enc) problem(f string, a ...interface{}) {
@@ -224,7 +227,7 @@ func (e *Enc) assume(guard, fact Term) {
 }
 
 func (e *Enc) oblige(name, kind string, guard, goal Term, pos string) *Obligation {
-	o := &Obligation{Name: name, Kind: kind, Prefix: len(e.lines), Goal: implies(guard, goal).S, Func: e.top.String(), Pos: pos, Inputs: e.inputs}
+	o := &Obligation{caseSel: -1, Name: name, Kind: kind, Prefix: len(e.lines), Goal: implies(guard, goal).S, Func: e.top.String(), Pos: pos, Inputs: e.inputs}
 	e.obls = append(e.obls, o)
 	return o
 }
